@@ -40,12 +40,14 @@ pub(crate) struct World {
     pub rx: crossbeam_channel::Receiver<BufferEvent>,
 }
 
-/// empty CacheD with the given limit / already-used weight / command queue size / sketch
-pub(crate) fn vk_world(max: Weight, used: Weight, qcap: usize, lfu: TinyLFU) -> World {
+/// empty CacheD built from CONCRETE scalars only (limit 1, nothing used); symbolic limits are poked in place
+/// afterwards with `set_limits` — a symbolic scalar inside a struct that is moved (memcpy) makes every later
+/// read of that struct a symbolic byte-array read and multiplies the formula size by ~15.
+pub(crate) fn vk_world(qcap: usize, lfu: TinyLFU) -> World {
     let stats = stk::vk_fresh();
-    let config = cfk::vk_config(max, qcap, 1, 2);
+    let config = cfk::vk_config(1, qcap, 1, 2);
     let store = sk::vk_store(stats.clone());
-    let cw = cwk::vk_cache_weight(max, used, stats.clone());
+    let cw = cwk::vk_cache_weight(1, 0, stats.clone());
     let (policy, rx) = apk::vk_policy(cw, lfu, stats.clone(), 2);
     let policy = Arc::new(policy);
     let pool = plk::vk_pool(1, 2, policy.clone());
@@ -56,11 +58,18 @@ pub(crate) fn vk_world(max: Weight, used: Weight, qcap: usize, lfu: TinyLFU) -> 
     let cache = CacheD { config, store, command_executor, admission_policy: policy, pool, ttl_ticker, id_generator: idk::vk_idgen(FIRST_FRESH_ID), is_shutting_down: AtomicBool::new(false) };
     World { cache, stats, worker, sweeper, rx }
 }
+/// let the (parked) worker continue: a fresh body of the real worker closure on the same queue
+pub(crate) fn resume_worker(w: &World) {
+    let c = &w.cache;
+    let slot = cek::vk_respawn_worker(&c.command_executor, c.store.clone(), c.admission_policy.clone(), w.stats.clone(), c.ttl_ticker.clone());
+    cek::vk_run_worker(slot);
+}
+pub(crate) fn set_limits(w: &World, max: Weight, used: Weight) { cwk::vk_set_limits(apk::vk_cw(&w.cache.admission_policy), max, used); }
 pub(crate) fn plain_lfu() -> TinyLFU { tlk::vk_tiny_lfu(fck::vk_zero_sketch(8), dkk::vk_doorkeeper_exact(), 0, 1000) }
 
 /// abstract description of one key of the pool: store entry + charged weight
 #[derive(Clone, Copy, PartialEq, Eq)]
-pub(crate) struct AKey { pub e: AEntry, pub weight: Weight }
+pub(crate) struct AKey { pub e: AEntry, pub weight: Weight, pub shard: usize }  // shard: CONCRETE expiry-index shard of the entry's expiry (expiry second is assumed congruent)
 
 /// install key i (key 101+i, id i+1, hash i+1) consistently in store, weight map and expiry index (RI1, RI4)
 pub(crate) fn install(w: &World, i: usize, k: &AKey) {
@@ -68,26 +77,81 @@ pub(crate) fn install(w: &World, i: usize, k: &AKey) {
     let key = sk::key_of(i);
     sk::vk_place(&w.cache.store, i, key, svk::vk_stored(k.e.value, k.e.id, k.e.expiry.map(|d| sup::time(d.0, d.1)), k.e.soft_deleted));
     cwk::vk_place(apk::vk_cw(&w.cache.admission_policy), i, k.e.id, key, cfk::vk_hash(&key), k.weight);
-    if let Some(d) = k.e.expiry { exk::vk_index_place(&w.cache.ttl_ticker, (d.0 % 2) as usize, i, k.e.id, sup::time(d.0, d.1)); }
+    if let Some(d) = k.e.expiry { exk::vk_index_place(&w.cache.ttl_ticker, k.shard, i, k.e.id, sup::time(d.0, d.1)); }
 }
 pub(crate) fn any_key(i: usize) -> AKey {
     let w: Weight = kani::any();
     kani::assume(w >= 1 && w <= (1i64 << 40));
-    AKey { e: sk::any_entry((i + 1) as KeyId), weight: w }
+    let e = sk::any_entry((i + 1) as KeyId);
+    let shard = match e.expiry { Some(d) => (d.0 % 2) as usize, None => 0 };
+    AKey { e, weight: w, shard }
 }
-/// arbitrary world over the 3-key pool with limit `max` (total = sum of the weights of the present keys <= max)
-pub(crate) fn any_world(qcap: usize) -> (World, [AKey; POOL], Weight) {
+/// key with a CONCRETE shape (present or not, with or without TTL) and symbolic attributes (value, weight,
+/// expiry instant, soft-delete mark).  Concrete shapes keep the model maps' occupancy constant, which is what
+/// makes CBMC's symbolic execution of the real code tractable (see DESIGN.md §1.9).
+pub(crate) fn shaped_key(i: usize, present: bool, with_ttl: bool) -> AKey {
+    let w: Weight = kani::any();
+    kani::assume(w >= 1 && w <= (1i64 << 40));
+    let e = (kani::any::<u64>(), sup::any_nanos());
+    // the expiry's index shard is concrete per key (key i -> shard i % 2); the expiry second is any second congruent to it
+    let shard = i % 2;
+    kani::assume(e.0 <= (1u64 << 40) && (e.0 % 2) as usize == shard);
+    AKey { e: AEntry { present, value: kani::any(), id: (i + 1) as KeyId, expiry: if with_ttl { Some(e) } else { None }, soft_deleted: if present { kani::any() } else { false } }, weight: w, shard }
+}
+/// world shapes: which pool keys are held and which of them carry a TTL
+#[derive(Clone, Copy)]
+pub(crate) struct Shape { pub present: [bool; POOL], pub ttl: [bool; POOL] }
+/// canonical shape: key 101 held with TTL, key 102 held without TTL, key 103 absent
+pub(crate) const SHAPE_A: Shape = Shape { present: [true, true, false], ttl: [true, false, false] };
+/// all three held, two with TTL (pressure / same-shard cases)
+pub(crate) const SHAPE_B: Shape = Shape { present: [true, true, true], ttl: [true, true, false] };
+pub(crate) const SHAPE_EMPTY: Shape = Shape { present: [false, false, false], ttl: [false, false, false] };
+
+pub(crate) fn shaped_keys(shape: Shape) -> [AKey; POOL] {
+    [shaped_key(0, shape.present[0], shape.ttl[0]), shaped_key(1, shape.present[1], shape.ttl[1]), shaped_key(2, shape.present[2], shape.ttl[2])]
+}
+/// any limit that accommodates the held keys; installs the keys and pokes limit / total in place
+pub(crate) fn populate(w: &World, keys: &[AKey; POOL]) -> Weight {
     let max: Weight = kani::any();
     kani::assume(max >= 1 && max <= (1i64 << 42));
-    let keys = [any_key(0), any_key(1), any_key(2)];
     let mut sum: Weight = 0;
     let mut i = 0;
     while i < POOL { if keys[i].e.present { sum += keys[i].weight; } i += 1; }
     kani::assume(sum <= max);
-    let w = vk_world(max, sum, qcap, plain_lfu());
     i = 0;
-    while i < POOL { install(&w, i, &keys[i]); i += 1; }
-    (w, keys, max)
+    while i < POOL { install(w, i, &keys[i]); i += 1; }
+    set_limits(w, max, sum);
+    max
+}
+/// world + keys + limit for a concrete shape, spliced into the harness function as statements (a macro, not a
+/// function, for two reasons: the command queue's slot array must be a LOCAL of the harness so that queued
+/// commands live in typed stack memory; and returning the world together with symbolic data in one tuple would
+/// move it through a temporary that mixes concrete and symbolic bytes).
+macro_rules! mk_world {
+    ($w:ident, $keys:ident, $max:ident, $qcap:expr, $shape:expr) => {
+        let $keys = shaped_keys($shape);
+        let mut __qs = cek::vk_slots();
+        let $w = vk_world($qcap, plain_lfu());
+        cek::vk_attach(&$w.cache.command_executor, &mut __qs);
+        let $max = populate(&$w, &$keys);
+    };
+}
+macro_rules! mk_any_world {
+    ($w:ident, $keys:ident, $max:ident, $qcap:expr) => {
+        let $keys = [any_key(0), any_key(1), any_key(2)];
+        let mut __qs = cek::vk_slots();
+        let $w = vk_world($qcap, plain_lfu());
+        cek::vk_attach(&$w.cache.command_executor, &mut __qs);
+        let $max = populate(&$w, &$keys);
+    };
+}
+macro_rules! mk_empty_world {
+    ($w:ident, $qcap:expr, $max:expr) => {
+        let mut __qs = cek::vk_slots();
+        let $w = vk_world($qcap, plain_lfu());
+        cek::vk_attach(&$w.cache.command_executor, &mut __qs);
+        set_limits(&$w, $max, 0);
+    };
 }
 /// does the concrete world hold exactly the abstract keys (store + weights + expiry index)?
 pub(crate) fn world_matches(w: &World, keys: &[AKey; POOL]) -> bool {
@@ -127,10 +191,15 @@ fn any_now() -> (u64, u32) {
 /// not soft-deleted, unexpired entry, and it is exactly that entry's value — under the identity-like hash
 /// and under a CONSTANT key hash function (all keys collide in the sketch).  Reads change nothing but the
 /// hit/miss counters and the access buffer.
-#[kani::proof]
-#[kani::unwind(6)]
-fn c02_all_read_variants_agree() {
-    let (w, keys, _max) = any_world(2);
+#[kani::proof] #[kani::unwind(6)] fn c02_read_get() { read_variant_agrees(0); }
+#[kani::proof] #[kani::unwind(6)] fn c02_read_get_ref() { read_variant_agrees(1); }
+#[kani::proof] #[kani::unwind(6)] fn c02_read_map_get() { read_variant_agrees(2); }
+#[kani::proof] #[kani::unwind(6)] fn c02_read_map_get_ref() { read_variant_agrees(3); }
+#[kani::proof] #[kani::unwind(12)] fn c02_read_multi_get() { read_variant_agrees(4); }
+#[kani::proof] #[kani::unwind(6)] fn c02_read_multi_get_iterator() { read_variant_agrees(5); }
+#[kani::proof] #[kani::unwind(6)] fn c02_read_multi_get_map_iterator() { read_variant_agrees(6); }
+fn read_variant_agrees(variant: u8) {
+    mk_world!(w, keys, _max, 2, SHAPE_A);
     let now = any_now();
     unsafe { cfk::CONST_HASH = if kani::any() { Some(5) } else { None }; }
     let q: usize = kani::any();
@@ -138,8 +207,6 @@ fn c02_all_read_variants_agree() {
     let key = sk::key_of(q);
     let expect = if q < POOL && sk::readable(&keys[q].e, now) { Some(keys[q].e.value) } else { None };
     let c = &w.cache;
-    let variant: u8 = kani::any();
-    kani::assume(variant < 7);
     let got: Option<u64> = match variant {
         0 => c.get(&key),
         1 => c.get_ref(&key).map(|r| { assert!(*r.key() == key, "C02: get_ref refers to the queried key"); *r.value().value_ref() }),
@@ -155,7 +222,7 @@ fn c02_all_read_variants_agree() {
     assert!((w.stats.hits() == 1) == expect.is_some(), "C16: hit iff a value was returned");
     assert!(plk::vk_buffered(&w.cache.pool) as u64 + w.stats.access_added() + w.stats.access_dropped() == w.stats.hits(), "C15: a hit adds exactly one access record, a miss none");
     assert!(cek::vk_queue_len(&w.cache.command_executor) == 0, "C11: reads queue nothing");
-    kani::cover!(expect.is_some() && variant == 6, "hit through the mapping iterator");
+    kani::cover!(expect.is_some(), "hit");
     kani::cover!(q < POOL && keys[q].e.present && keys[q].e.soft_deleted, "soft-deleted key read");
     kani::cover!(q < POOL && keys[q].e.present && !keys[q].e.soft_deleted && keys[q].e.expiry.is_some() && expect.is_none(), "expired, unswept key read");
     kani::cover!(q == POOL, "never-written key read");
@@ -164,10 +231,11 @@ fn c02_all_read_variants_agree() {
 
 /// C02 / P3: multi-key reads over two solver-chosen (possibly equal) keys: one answer per requested key, in
 /// request order for the iterators, each equal to the single-key answer.
-#[kani::proof]
-#[kani::unwind(6)]
-fn c02_multi_key_reads() {
-    let (w, keys, _max) = any_world(2);
+#[kani::proof] #[kani::unwind(12)] fn c02_two_keys_multi_get() { multi_key_reads(0); }
+#[kani::proof] #[kani::unwind(6)] fn c02_two_keys_iterator() { multi_key_reads(1); }
+#[kani::proof] #[kani::unwind(6)] fn c02_two_keys_map_iterator() { multi_key_reads(2); }
+fn multi_key_reads(variant: u8) {
+    mk_world!(w, keys, _max, 2, SHAPE_A);
     let now = any_now();
     let q1: usize = kani::any();
     let q2: usize = kani::any();
@@ -176,8 +244,6 @@ fn c02_multi_key_reads() {
     let e1 = if q1 < POOL && sk::readable(&keys[q1].e, now) { Some(keys[q1].e.value) } else { None };
     let e2 = if q2 < POOL && sk::readable(&keys[q2].e, now) { Some(keys[q2].e.value) } else { None };
     let c = &w.cache;
-    let variant: u8 = kani::any();
-    kani::assume(variant < 3);
     match variant {
         0 => {
             let m = c.multi_get(vec![&k1, &k2]);
@@ -205,7 +271,14 @@ fn ttl_any() -> ((u64, u32), Duration) {
     kani::assume(t.0 <= (1u64 << 40));
     (t, Duration::new(t.0, t.1))
 }
-fn status_of(ack: &Arc<CommandAcknowledgement>) -> Poll<CommandStatus> { ackk::vk_poll(ack, 0) }
+/// what a poll would return, read directly (done flag, then status) without registering a waker: a Waker's
+/// vtable holds plain function pointers, and CBMC then explores every function of compatible signature -
+/// including the stashed thread bodies - as a call target.  poll()/wake semantics are C12's own harnesses.
+/// acknowledgements are never dropped by a harness (dropping the last Arc would run Waker's drop through its
+/// function-pointer vtable, for which CBMC explores every function of compatible signature as a target)
+type Ack = core::mem::ManuallyDrop<Arc<CommandAcknowledgement>>;
+fn hold(r: crate::cache::command::command_executor::CommandSendResult) -> Ack { core::mem::ManuallyDrop::new(r.unwrap()) }
+fn status_of(ack: &Ack) -> Poll<CommandStatus> { if ackk::vk_is_done(ack) { Poll::Ready(ackk::vk_status(ack)) } else { Poll::Pending } }
 
 /// C07/C05/C11 / P2: any of the four put variants from the caller's side, on an arbitrary cache, for a key in
 /// any life-cycle state.  Readable key => answered on the spot with Rejected(KeyAlreadyExists), nothing queued,
@@ -213,13 +286,13 @@ fn status_of(ack: &Arc<CommandAcknowledgement>) -> Poll<CommandStatus> { ackk::v
 /// queued carrying the key, a fresh id, the configured hash, the right weight (explicit, or computed with the
 /// TTL flag iff a TTL is given), the value and the TTL; its acknowledgement is pending; the cache state itself
 /// is untouched by the client step.
-#[kani::proof]
-#[kani::unwind(6)]
-fn c07_put_client_step() {
-    let (w, keys, _max) = any_world(2);
+#[kani::proof] #[kani::unwind(6)] fn c07_put_client_step_q0() { c07_put_client_step_for(0); }
+#[kani::proof] #[kani::unwind(6)] fn c07_put_client_step_q1() { c07_put_client_step_for(1); }
+#[kani::proof] #[kani::unwind(6)] fn c07_put_client_step_q2() { c07_put_client_step_for(2); }
+#[kani::proof] #[kani::unwind(6)] fn c07_put_client_step_q3() { c07_put_client_step_for(3); }
+fn c07_put_client_step_for(q: usize) {
+    mk_world!(w, keys, _max, 2, SHAPE_A);
     let now = any_now();
-    let q: usize = kani::any();
-    kani::assume(q <= POOL);
     let key = sk::key_of(q);
     let v: u64 = kani::any();
     let wv: Weight = kani::any();
@@ -230,7 +303,7 @@ fn c07_put_client_step() {
     let c = &w.cache;
     let r = match variant { 0 => c.put(key, v), 1 => c.put_with_weight(key, v, wv), 2 => c.put_with_ttl(key, v, ttl), _ => c.put_with_weight_and_ttl(key, v, wv, ttl) };
     assert!(r.is_ok(), "C13: a running cache accepts the call");
-    let ack = r.unwrap();
+    let ack = hold(r);
     let st = status_of(&ack);
     let present = q < POOL && keys[q].e.present;
     let readable = q < POOL && sk::readable(&keys[q].e, now);
@@ -251,7 +324,7 @@ fn c07_put_client_step() {
         let exp = if variant >= 2 { CmdView::PutTTL { key, id: FIRST_FRESH_ID, hash: cfk::vk_hash(&key), weight: exp_w, value: v, ttl } }
                   else { CmdView::Put { key, id: FIRST_FRESH_ID, hash: cfk::vk_hash(&key), weight: exp_w, value: v } };
         assert!(cmd == exp, "C07/C08: the queued command carries key, fresh id, hash, weight (TTL-aware), value and TTL of the call");
-        assert!(Arc::ptr_eq(&cek::vk_ack_of(&c.command_executor, 0).unwrap(), &ack), "C11: the caller holds the acknowledgement of exactly the queued command");
+        assert!(cek::vk_ack_ptr(&c.command_executor, 0) == Some(Arc::as_ptr(&ack)), "C11: the caller holds the acknowledgement of exactly the queued command");
     }
     assert!(world_matches(&w, &keys), "C07: the caller's side of a put never changes value, weight or expiry of any key");
     kani::cover!(readable && variant == 3, "existing key, weight+ttl variant");
@@ -266,19 +339,19 @@ fn c07_put_client_step() {
 /// applied it: Accepted iff k was physically held, then k is gone from store, weights and expiry index, the
 /// total dropped by exactly k's weight, other keys untouched; else Rejected(KeyDoesNotExist) and nothing
 /// changed.  (c) k can be put again (not 'already exists').
-#[kani::proof]
-#[kani::unwind(6)]
-fn c04_delete_hides_then_releases() {
-    let (w, keys, _max) = any_world(2);
+#[kani::proof] #[kani::unwind(6)] fn c04_delete_hides_then_releases_q0() { c04_delete_hides_then_releases_for(0); }
+#[kani::proof] #[kani::unwind(6)] fn c04_delete_hides_then_releases_q1() { c04_delete_hides_then_releases_for(1); }
+#[kani::proof] #[kani::unwind(6)] fn c04_delete_hides_then_releases_q2() { c04_delete_hides_then_releases_for(2); }
+#[kani::proof] #[kani::unwind(6)] fn c04_delete_hides_then_releases_q3() { c04_delete_hides_then_releases_for(3); }
+fn c04_delete_hides_then_releases_for(q: usize) {
+    mk_world!(w, keys, _max, 2, SHAPE_A);
     let now = any_now();
-    let q: usize = kani::any();
-    kani::assume(q <= POOL);
     let key = sk::key_of(q);
     let c = &w.cache;
     let used0 = c.total_weight_used();
     let r = c.delete(key);
     assert!(r.is_ok(), "C13: a running cache accepts delete");
-    let ack = r.unwrap();
+    let ack = hold(r);
     // (a) immediate invisibility
     let read_variant: bool = kani::any();
     let seen = if read_variant { c.get(&key) } else { c.get_ref(&key).map(|r| *r.value().value_ref()) };
@@ -299,13 +372,12 @@ fn c04_delete_hides_then_releases() {
     assert!(w.stats.keys_deleted() == if held { 1 } else { 0 } && w.stats.weight_removed() == if held { keys[q].weight as u64 } else { 0 }, "C16: one key and its weight counted as removed");
     assert!(cek::vk_queue_len(&c.command_executor) == 0 && unsafe { vs::PARKED }, "C11: the worker consumed the command and waits for the next");
     // (c) the key can be put again
-    let again = c.put_with_weight(key, 5, 1).unwrap();
+    let again = hold(c.put_with_weight(key, 5, 1));
     assert!(status_of(&again) == Poll::Pending && cek::vk_queue_len(&c.command_executor) == 1, "C04: a deleted key can be put again (not 'already exists')");
     let _ = now;
     kani::cover!(held && keys[q].e.expiry.is_some(), "delete of a key with TTL");
     kani::cover!(held && keys[q].e.soft_deleted, "second delete while the first is still pending");
-    kani::cover!(!held && q < POOL, "delete of an absent pool key");
-    kani::cover!(q == POOL, "delete of a never-written key");
+    kani::cover!(!held, "delete of a key that is not held (absent pool key / never written)");
     core::mem::forget(w);
 }
 
@@ -320,13 +392,13 @@ fn add_ttl(now: (u64, u32), t: (u64, u32)) -> (u64, u32) {
 /// expiry index follows the new expiry; an explicit weight is queued as UpdateWeight and, once the worker has
 /// applied it, is the key's charged weight (total adjusted by the difference).  Absent key: exactly the
 /// command the corresponding put would queue.  Other keys are never touched.
-#[kani::proof]
-#[kani::unwind(6)]
-fn c08_put_or_update_step() {
-    let (w, keys, max) = any_world(2);
+#[kani::proof] #[kani::unwind(6)] fn c08_put_or_update_step_q0() { c08_put_or_update_step_for(0); }
+#[kani::proof] #[kani::unwind(6)] fn c08_put_or_update_step_q1() { c08_put_or_update_step_for(1); }
+#[kani::proof] #[kani::unwind(6)] fn c08_put_or_update_step_q2() { c08_put_or_update_step_for(2); }
+#[kani::proof] #[kani::unwind(6)] fn c08_put_or_update_step_q3() { c08_put_or_update_step_for(3); }
+fn c08_put_or_update_step_for(q: usize) {
+    mk_world!(w, keys, max, 2, SHAPE_A);
     let now = any_now();
-    let q: usize = kani::any();
-    kani::assume(q <= POOL);
     let key = sk::key_of(q);
     let value: Option<u64> = if kani::any() { Some(kani::any()) } else { None };
     let weight: Option<Weight> = if kani::any() { let x: Weight = kani::any(); kani::assume(x >= 1 && x <= (1i64 << 40)); Some(x) } else { None };
@@ -348,7 +420,7 @@ fn c08_put_or_update_step() {
     }
     let r = c.put_or_update(pouk::vk_request(key, value, weight, ttl, remove));
     assert!(r.is_ok(), "C13: a running cache accepts the call");
-    let ack = r.unwrap();
+    let ack = hold(r);
     let qlen = cek::vk_queue_len(&c.command_executor);
     if !present {
         // acts as the corresponding put
@@ -411,13 +483,13 @@ fn count_present(k: &[AKey; POOL]) -> usize { (k[0].e.present as usize) + (k[1].
 /// stored with its value, id, expiry = now + ttl, charged with its weight and registered in the expiry index;
 /// a rejected key leaves no trace and is counted as rejected; every other key is either untouched or evicted
 /// completely (store entry and weight both gone); without pressure nothing is evicted.
-#[kani::proof]
-#[kani::unwind(6)]
-fn c05_worker_put_step() {
-    let (w, keys, max) = any_world(2);
+#[kani::proof] #[kani::unwind(6)] fn c05_worker_put_step_q0() { c05_worker_put_step_for(0); }
+#[kani::proof] #[kani::unwind(6)] fn c05_worker_put_step_q1() { c05_worker_put_step_for(1); }
+#[kani::proof] #[kani::unwind(6)] fn c05_worker_put_step_q2() { c05_worker_put_step_for(2); }
+#[kani::proof] #[kani::unwind(6)] fn c05_worker_put_step_q3() { c05_worker_put_step_for(3); }
+fn c05_worker_put_step_for(q: usize) {
+    mk_world!(w, keys, max, 2, SHAPE_A);
     let now = any_now();
-    let q: usize = kani::any();
-    kani::assume(q <= POOL);
     let key = sk::key_of(q);
     let v: u64 = kani::any();
     let wv: Weight = kani::any();
@@ -433,7 +505,7 @@ fn c05_worker_put_step() {
         kani::assume(false);
     }
     let d = crate::cache::key_description::KeyDescription::new(key, FIRST_FRESH_ID, cfk::vk_hash(&key), wv);
-    let ack = if with_ttl { c.command_executor.send(crate::cache::command::CommandType::PutWithTTL(d, v, ttl)) } else { c.command_executor.send(crate::cache::command::CommandType::Put(d, v)) }.unwrap();
+    let ack = hold(if with_ttl { c.command_executor.send(crate::cache::command::CommandType::PutWithTTL(d, v, ttl)) } else { c.command_executor.send(crate::cache::command::CommandType::Put(d, v)) });
     cek::vk_run_worker(w.worker);
     let st = status_of(&ack);
     assert!(st != Poll::Pending && st != Poll::Ready(CommandStatus::Pending), "C12: the worker acknowledges the command it executed");
@@ -485,3 +557,170 @@ fn c05_worker_put_step() {
     kani::cover!(!present && accepted && with_ttl, "TTL put accepted");
     core::mem::forget(w);
 }
+
+// =========================================================================================== C11 burst
+static mut W_PTR: *const World = core::ptr::null();
+/// blocking hook: a client blocked on the full command queue lets the worker run
+fn run_worker_hook(_class: u8) { unsafe { resume_worker(&*W_PTR); } }
+
+/// C11/C04/C12 / P3: a burst of unawaited writes on an empty cache with a command queue of capacity 1 or 2:
+/// put(k) ; delete(k) ; put(k2) — issued back to back without awaiting.  With capacity 1 the second and third
+/// send meet a FULL queue: the sender blocks, the worker runs (blocking hook), the send completes — nothing is
+/// dropped or duplicated.  Afterwards the worker drains the rest.  Post: every command was dequeued exactly
+/// once in FIFO order; acknowledgements resolve to the outcome of the in-order execution (Accepted, Accepted,
+/// Accepted); k is absent (a put followed by a delete always leaves the key absent), k2 present; weight and
+/// statistics equal those of the in-order reference run.
+#[kani::proof]
+#[kani::unwind(6)]
+fn c11_unawaited_burst_in_order() {
+    let qcap: usize = if kani::any() { 1 } else { 2 };
+    mk_empty_world!(w, qcap, 1000);
+    any_now();
+    let c = &w.cache;
+    unsafe { W_PTR = &w as *const World; vs::BLOCK_HOOK = Some(run_worker_hook); crossbeam_channel::SEND_BLOCK_IS_FAILURE = true; }
+    let w1: Weight = kani::any();
+    let w2: Weight = kani::any();
+    kani::assume(w1 >= 1 && w1 <= 500 && w2 >= 1 && w2 <= 500);
+    let a1 = hold(c.put_with_weight(101, 7, w1));
+    let a2 = hold(c.delete(101));
+    let a3 = hold(c.put_with_weight(102, 8, w2));
+    // whatever is still queued is executed now
+    resume_worker(&w);
+    unsafe { vs::BLOCK_HOOK = None; }
+    let (sent, received, fifo_ok) = cek::vk_chan_stats(&c.command_executor);
+    assert!(sent == 3 && received == 3 && fifo_ok, "C11: every queued write is dequeued exactly once, in submission order, even when the queue was full");
+    assert!(status_of(&a1) == Poll::Ready(CommandStatus::Accepted) && status_of(&a2) == Poll::Ready(CommandStatus::Accepted) && status_of(&a3) == Poll::Ready(CommandStatus::Accepted),
+            "C11/C12: acknowledgements resolve to the outcome of the in-order execution");
+    assert!(c.get(&101).is_none() && sk::vk_peek(&c.store, &101).is_none(), "C11: a put followed without awaiting by a delete of the same key leaves the key absent");
+    assert!(c.get(&102) == Some(8), "C11: the later put is applied");
+    assert!(c.total_weight_used() == w2, "C05: weight equals that of the in-order reference run");
+    assert!(w.stats.keys_added() == 2 && w.stats.keys_deleted() == 1 && w.stats.keys_rejected() == 0, "C16: statistics equal those of the in-order reference run");
+    kani::cover!(qcap == 1, "queue of one: sends met a full queue");
+    kani::cover!(qcap == 2, "queue of two");
+    core::mem::forget(w);
+}
+
+// =========================================================================================== C13 shutdown
+/// C13 / P2: shutdown() on a cache holding two keys with one write already queued (unawaited): shutdown
+/// returns (also when its own Shutdown command meets a full queue of capacity 1: the worker makes room);
+/// afterwards EVERY write entry point returns Err and every read returns absent / empty; once the worker has
+/// run, the acknowledgement handed out before shutdown is resolved with its real outcome (it was queued ahead
+/// of Shutdown), the cache is empty, and a second shutdown() is a no-op.
+#[kani::proof]
+#[kani::unwind(6)]
+fn c13_shutdown_gate_and_drain() {
+    let qcap: usize = if kani::any() { 1 } else { 2 };
+    mk_world!(w, keys, _max, qcap, SHAPE_A);
+    any_now();
+    let c = &w.cache;
+    unsafe { W_PTR = &w as *const World; vs::BLOCK_HOOK = Some(run_worker_hook); crossbeam_channel::SEND_BLOCK_IS_FAILURE = true; }
+    let pending = hold(c.delete(102));
+    c.shutdown();
+    // the gate
+    let api: u8 = kani::any();
+    kani::assume(api < 13);
+    match api {
+        0 => assert!(c.put(104, 1).is_err(), "C13: put after shutdown returns an error"),
+        1 => assert!(c.put_with_weight(104, 1, 1).is_err(), "C13: put_with_weight after shutdown returns an error"),
+        2 => assert!(c.put_with_ttl(104, 1, Duration::from_secs(1)).is_err(), "C13: put_with_ttl after shutdown returns an error"),
+        3 => assert!(c.put_with_weight_and_ttl(104, 1, 1, Duration::from_secs(1)).is_err(), "C13: put_with_weight_and_ttl after shutdown returns an error"),
+        4 => assert!(c.put_or_update(pouk::vk_request(101, Some(1), None, None, false)).is_err(), "C13: put_or_update after shutdown returns an error"),
+        5 => assert!(c.delete(101).is_err(), "C13: delete after shutdown returns an error"),
+        6 => assert!(c.get(&101).is_none(), "C13: get after shutdown returns absent"),
+        7 => assert!(c.get_ref(&101).is_none(), "C13: get_ref after shutdown returns absent"),
+        8 => assert!(c.map_get(&101, |v| v).is_none(), "C13: map_get after shutdown returns absent"),
+        9 => assert!(c.map_get_ref(&101, |v| *v.value_ref()).is_none(), "C13: map_get_ref after shutdown returns absent"),
+        10 => { let m = c.multi_get(vec![&101]); assert!(m.is_empty(), "C13: multi_get after shutdown returns empty"); core::mem::forget(m); }
+        11 => assert!(c.multi_get_iterator(vec![&101]).next().is_none(), "C13: multi_get_iterator after shutdown yields nothing"),
+        _ => assert!(c.multi_get_map_iterator(vec![&101], |v| v).next().is_none(), "C13: multi_get_map_iterator after shutdown yields nothing"),
+    }
+    // the worker drains
+    resume_worker(&w);
+    unsafe { vs::BLOCK_HOOK = None; }
+    let st = status_of(&pending);
+    assert!(st == Poll::Ready(CommandStatus::Accepted) || st == Poll::Ready(CommandStatus::ShuttingDown), "C13: every acknowledgement handed out before shutdown completes: real outcome if the command ran, ShuttingDown otherwise - never pending");
+    assert!(st == Poll::Ready(CommandStatus::Accepted), "C13/C11: a command queued ahead of Shutdown is executed and reports its real outcome");
+    assert!(sk::vk_len(&c.store) == 0 && cwk::vk_len(apk::vk_cw(&c.admission_policy)) == 0 && c.total_weight_used() == 0 && exk::vk_index_len(&c.ttl_ticker, 0) == 0 && exk::vk_index_len(&c.ttl_ticker, 1) == 0, "C13: shutdown empties store, weights and expiry index");
+    assert!(!cek::vk_receiver_alive(&c.command_executor) || unsafe { vs::PARKED }, "C13: the worker has stopped executing commands");
+    c.shutdown();
+    assert!(cek::vk_queue_len(&c.command_executor) == 0, "C13: a repeated shutdown queues nothing and returns");
+    assert!(!apk::vk_keep_running(&c.admission_policy) && !exk::vk_keep_running(&c.ttl_ticker), "C13: consumer and sweeper are told to stop");
+    kani::cover!(qcap == 1, "shutdown command met a full queue");
+    kani::cover!(api == 12, "last API probed");
+    core::mem::forget(w);
+}
+
+/// C13/C12 / P2: a write that was queued BEHIND the Shutdown command (it passed the gate just before the flag
+/// was set) is answered ShuttingDown by the worker's drain loop - never left pending, never executed.
+#[kani::proof]
+#[kani::unwind(6)]
+fn c13_command_behind_shutdown_is_answered() {
+    mk_empty_world!(w, 4, 1000);
+    any_now();
+    let c = &w.cache;
+    let before = hold(c.put_with_weight(101, 1, 10));
+    let sd = hold(c.command_executor.shutdown());
+    let d = crate::cache::key_description::KeyDescription::new(102u64, 11, 2, 10);
+    let behind = hold(c.command_executor.send(crate::cache::command::CommandType::Put(d, 5)));
+    let behind2 = hold(c.command_executor.send(crate::cache::command::CommandType::Delete(101)));
+    cek::vk_run_worker(w.worker);
+    assert!(status_of(&before) == Poll::Ready(CommandStatus::Accepted), "C13: a command ahead of Shutdown runs and reports its real outcome");
+    assert!(status_of(&sd) == Poll::Ready(CommandStatus::Accepted), "C13: the Shutdown command itself is acknowledged");
+    assert!(status_of(&behind) == Poll::Ready(CommandStatus::ShuttingDown) && status_of(&behind2) == Poll::Ready(CommandStatus::ShuttingDown), "C13: everything queued behind Shutdown is answered ShuttingDown");
+    assert!(sk::vk_peek(&c.store, &102).is_none() && sk::vk_peek(&c.store, &101).is_some(), "C13: commands behind Shutdown are not executed");
+    assert!(cek::vk_queue_len(&c.command_executor) == 0, "C13: the drain loop leaves nothing unanswered");
+    core::mem::forget(w);
+}
+
+// =========================================================================================== C10 end to end
+/// C10/C05/C16 / P2: one tick of the REAL sweeper with the REAL evict hook (weights by id, then store by key)
+/// on a whole CacheD at a solver-chosen instant: a held TTL key whose expiry has passed and whose shard is due
+/// is removed from store, weights and index, its weight released and counted; the key without TTL is untouched.
+#[kani::proof]
+#[kani::unwind(6)]
+fn c10_sweep_end_to_end() { sweep_end_to_end(false); }
+/// ... with a STALE index entry in the due shard (id 9 is no longer charged: its key was deleted or evicted
+/// earlier, and the same key 103... is held again under a new id): the stale entry is dropped without touching
+/// anything else.
+#[kani::proof]
+#[kani::unwind(6)]
+fn c10_sweep_with_stale_entry() { sweep_end_to_end(true); }
+fn sweep_end_to_end(with_stale: bool) {
+    mk_world!(w, keys, _max, 2, SHAPE_A);
+    // stale entry: id 9 once belonged to key 102 (held now under id 2, without TTL); its old expiry is in shard 0
+    let stale_exp = (kani::any::<u64>(), sup::any_nanos());
+    kani::assume(stale_exp.0 <= (1u64 << 40) && stale_exp.0 % 2 == 0);
+    if with_stale { exk::vk_index_place(&w.cache.ttl_ticker, 0, 3, 9, sup::time(stale_exp.0, stale_exp.1)); }
+    let now = any_now();
+    let c = &w.cache;
+    let used0 = c.total_weight_used();
+    exk::vk_run_sweeper(w.sweeper, 1);
+    let cur = (now.0 % 2) as usize;
+    let mut exp = keys;
+    let mut released: Weight = 0;
+    let mut removed = 0u64;
+    let mut i = 0;
+    while i < POOL {
+        if let Some(d) = keys[i].e.expiry {
+            if keys[i].e.present && keys[i].shard == cur && !sk::le(now, d) { exp[i].e.present = false; released += keys[i].weight; removed += 1; }
+        }
+        i += 1;
+    }
+    assert!(world_matches(&w, &exp), "C10: the sweep removes exactly the held keys whose expiry has passed (store, weight, index) and nothing else");
+    assert!(c.total_weight_used() == used0 - released, "C10/C05: the weight of every swept key is released");
+    assert!(w.stats.keys_deleted() == removed && w.stats.weight_removed() == released as u64, "C16: swept keys and their weight are counted");
+    if with_stale {
+        let stale_due = cur == 0 && !sk::le(now, stale_exp);
+        assert!(exk::vk_index_entry(&c.ttl_ticker, 0, 9).is_some() == !stale_due, "C10: a stale entry is dropped when its old expiry comes due, and only then");
+        kani::cover!(removed == 1 && stale_due, "a live key and a stale entry swept in the same tick");
+        kani::cover!(removed == 0 && stale_due, "only the stale entry was due: nothing else changes");
+    } else {
+        kani::cover!(removed == 1, "the TTL key was swept");
+        kani::cover!(removed == 0 && keys[0].shard == cur, "shard due but key not expired");
+        kani::cover!(keys[0].e.expiry == Some(now), "tick exactly at the expiry instant");
+        kani::cover!(removed == 1 && keys[0].e.soft_deleted, "soft-deleted key swept");
+    }
+    core::mem::forget(w);
+}
+
+
